@@ -23,6 +23,11 @@ var Quirks = []Quirk{
 	{ID: "C01-cookie-nonstring", Detect: hasNonStringCookie, SigAny: []string{"client/encode_decode"}},
 	{ID: "C01-primitive-payload-header", Detect: hasPrimitivePayloadHeader, SigAny: []string{"client/encode_decode"}},
 	{ID: "C01-nested-inline-object", Detect: hasNestedInlineObject, SigAny: []string{"/types", "struct{…}"}},
+	{ID: "C01-usertype-in-inline-object", Detect: hasUserTypeInInlineObject, SigAny: []string{"undefined: _"}},
+	{ID: "C01-body-attr-bytes", Detect: hasBodyAttrBytes, SigAny: []string{"*[]byte"}},
+	{ID: "C01-alias-path-param-empty-body", Detect: hasAliasPathParamEmptyBody, SigAny: []string{"client/encode_decode: cannot use string(_._)", "client/encode_decode: cannot use"}},
+	{ID: "C01-body-fields-user-type", Detect: hasBodyFieldsUserType, SigAny: []string{"client/types: cannot use _ (variable of type *struct{…}"}},
+	{ID: "C01-body-fields-inline-required", Detect: hasBodyFieldsInlineRequired, SigAny: []string{"== nil (mismatched types", "cannot indirect"}},
 }
 
 // OpenQuirks returns the IDs of the quirks whose finding is listed as open:
@@ -128,5 +133,169 @@ func hasNestedInlineObject(d *m.Design) bool {
 	}
 	return eachMethod(d, func(s *m.Service, meth *m.Method) bool {
 		return walk(meth.Payload, 0) || walk(meth.Result, 0)
+	})
+}
+
+// inlineObjectHolds reports whether an inline object attribute (an object
+// below the root, not through a user type) holds an attribute for which pred is true.
+func inlineObjectHolds(a *m.Attr, level int, pred func(*m.Attr) bool) bool {
+	if a == nil || a.Type == nil {
+		return false
+	}
+	switch a.Type.Kind {
+	case m.Object:
+		for _, f := range a.Type.Fields {
+			if level >= 1 && pred(f.Attr) {
+				return true
+			}
+			if inlineObjectHolds(f.Attr, level+1, pred) {
+				return true
+			}
+		}
+	case m.Array:
+		return inlineObjectHolds(a.Type.Elem, level, pred)
+	case m.Map:
+		return inlineObjectHolds(a.Type.Val, level, pred)
+	}
+	return false
+}
+
+func refsUser(a *m.Attr) bool {
+	if a == nil || a.Type == nil {
+		return false
+	}
+	switch a.Type.Kind {
+	case m.User:
+		return true
+	case m.Array:
+		return refsUser(a.Type.Elem)
+	case m.Map:
+		return refsUser(a.Type.Val) || refsUser(a.Type.Key)
+	}
+	return false
+}
+
+func hasUserTypeInInlineObject(d *m.Design) bool {
+	for _, t := range d.Types {
+		if inlineObjectHolds(t.Attr, 0, refsUser) {
+			return true
+		}
+	}
+	return eachMethod(d, func(s *m.Service, meth *m.Method) bool {
+		return inlineObjectHolds(meth.Payload, 0, refsUser) || inlineObjectHolds(meth.Result, 0, refsUser)
+	})
+}
+
+func hasBodyAttrBytes(d *m.Design) bool {
+	return eachMethod(d, func(s *m.Service, meth *m.Method) bool {
+		h := meth.HTTP
+		if h == nil {
+			return false
+		}
+		if h.Body != nil && h.Body.Mode == "attr" && meth.Payload != nil {
+			if f := d.FieldByName(meth.Payload, h.Body.Attr); f != nil && d.Underlying(f.Attr) == m.Bytes {
+				return true
+			}
+		}
+		for _, r := range h.Responses {
+			if r.Body != nil && r.Body.Mode == "attr" && meth.Result != nil {
+				if f := d.FieldByName(meth.Result, r.Body.Attr); f != nil && d.Underlying(f.Attr) == m.Bytes {
+					return true
+				}
+			}
+		}
+		return false
+	})
+}
+
+// BodyAttrs returns the names of the payload attributes carried in the request body.
+func BodyAttrs(d *m.Design, meth *m.Method) []string {
+	h := meth.HTTP
+	if h == nil || meth.Payload == nil {
+		return nil
+	}
+	if h.Body != nil {
+		switch h.Body.Mode {
+		case "attr":
+			return []string{h.Body.Attr}
+		case "fields":
+			return h.Body.Fields
+		case "empty":
+			return nil
+		}
+	}
+	mapped := map[string]bool{}
+	for _, l := range [][]m.Mapping{h.Path, h.Query, h.Headers, h.Cookies} {
+		for _, mp := range l {
+			mapped[mp.Attr] = true
+		}
+	}
+	var out []string
+	for _, f := range d.ObjectFields(meth.Payload) {
+		if !mapped[f.Name] && f.Name != h.MapParams {
+			out = append(out, f.Name)
+		}
+	}
+	return out
+}
+
+func hasAliasPathParamEmptyBody(d *m.Design) bool {
+	return eachMethod(d, func(s *m.Service, meth *m.Method) bool {
+		h := meth.HTTP
+		if h == nil || meth.Payload == nil || d.ObjectFields(meth.Payload) == nil {
+			return false
+		}
+		if len(BodyAttrs(d, meth)) > 0 {
+			return false
+		}
+		for _, p := range h.Path {
+			if f := d.FieldByName(meth.Payload, p.Attr); f != nil && f.Attr.Type.Kind == m.User {
+				return true
+			}
+		}
+		return false
+	})
+}
+
+func hasBodyFieldsUserType(d *m.Design) bool {
+	return eachMethod(d, func(s *m.Service, meth *m.Method) bool {
+		h := meth.HTTP
+		if h == nil || h.Body == nil || h.Body.Mode != "fields" || meth.Payload == nil {
+			return false
+		}
+		for _, n := range h.Body.Fields {
+			if f := d.FieldByName(meth.Payload, n); f != nil && refsUser(f.Attr) && d.Underlying(f.Attr) == m.Object {
+				return true
+			}
+			if f := d.FieldByName(meth.Payload, n); f != nil && refsUser(f.Attr) {
+				// arrays / maps of user types
+				k := d.Underlying(f.Attr)
+				if k == m.Array || k == m.Map {
+					return true
+				}
+			}
+		}
+		return false
+	})
+}
+
+func hasBodyFieldsInlineRequired(d *m.Design) bool {
+	return eachMethod(d, func(s *m.Service, meth *m.Method) bool {
+		h := meth.HTTP
+		if h == nil || h.Body == nil || h.Body.Mode != "fields" || meth.Payload == nil {
+			return false
+		}
+		for _, n := range h.Body.Fields {
+			f := d.FieldByName(meth.Payload, n)
+			if f == nil || f.Attr.Type.Kind != m.Object {
+				continue
+			}
+			for _, sub := range f.Attr.Type.Fields {
+				if sub.Required || sub.Attr.Default != nil {
+					return true
+				}
+			}
+		}
+		return false
 	})
 }
